@@ -48,11 +48,12 @@ impl TcpObservation {
                 _ => true,
             }
         };
-        if self
-            .quirks
-            .iter()
-            .filter(relevant)
-            .eq(other.quirks.iter().filter(relevant))
+        // The quirk field is a set (a bitmask in p0f): the order in which a signature lists its
+        // quirks, or the analyzer emits them, carries no meaning.
+        let observed: Vec<&tcp::Quirk> = self.quirks.iter().filter(relevant).collect();
+        let expected: Vec<&tcp::Quirk> = other.quirks.iter().filter(relevant).collect();
+        if observed.iter().all(|quirk| expected.contains(quirk))
+            && expected.iter().all(|quirk| observed.contains(quirk))
         {
             Some(tcp::TcpMatchQuality::High.as_score())
         } else {
